@@ -358,7 +358,10 @@ func c06dump(db *MemDB) string {
 		qs = append(qs, fmt.Sprintf("qc%d/%d%s", q.Key.Slot, q.Key.SubcommIdx, nc(q.Cancel)))
 	}
 	sort.Strings(qs)
-	return strings.Join(ks, ";") + "|" + strings.Join(qs, ";")
+	// whatever else the store holds (nothing, for the code this was written against)
+	extra := schedx.ExtraState(db, "mu", "attDuties", "attPubKeys", "attKeysBySlot", "attQueries", "proDuties", "proQueries", "aggDuties", "aggKeysBySlot",
+		"aggQueries", "contribDuties", "contribKeysBySlot", "contribQueries", "shutdown", "deadliner")
+	return strings.Join(ks, ";") + "|" + strings.Join(qs, ";") + extra
 }
 
 // ---- oracle ---------------------------------------------------------------------------------------------
